@@ -11,7 +11,8 @@ use smlmc::dec::{BufKind, Dec};
 use smlmc::e1::{explore, full_alphabet, Cfg, Gen2, Node, StepInfo, Sym};
 use smlmc::mon::Mon;
 use smlmc::report::{Ctx, Tier};
-use sml_rs::transport::{Decoder, DecoderSnapshot};
+use sml_rs::transport::Decoder;
+use smlmc::dec::Snap as DecoderSnapshot;
 use stateright::{Checker, Model, Property};
 
 #[derive(Clone, Debug, Hash, PartialEq, Eq)]
@@ -31,7 +32,7 @@ fn to_state(n: &Node, bad: bool) -> St {
     St { snap: n.dec.snap(), in_frame: n.mon.in_frame, unacc: n.mon.unacc, scan: n.mon.scan, frame: n.mon.frame.clone(), bad }
 }
 fn to_node(s: &St) -> Node {
-    let d: Decoder<Vec<u8>> = Decoder::verif_restore(&s.snap).expect("restore");
+    let d: Decoder<Vec<u8>> = Decoder::verif_restore(&s.snap.to_hook()).expect("restore");
     let dec: Box<dyn Dec> = Box::new(d);
     Node { dec, mon: Mon { in_frame: s.in_frame, unacc: s.unacc, scan: s.scan, frame: s.frame.clone(), cap: None }, kind: BufKind::Vec }
 }
